@@ -108,8 +108,9 @@ CLAIMED = {
          "constraints, warnings and variables after every call of random call sequences (branch coverage measured inside "
          "the model), plus an enumeration oracle of the property on the implementation.",
     note="Trusted: Coq kernel + vm_compute; no axioms; hand-written model of _pcbo.py (constraint part) on top of the C05 model; "
-         "harness. The additivity statement 'min over all ancillas of the sum = sum of the minima' is carried per constraint "
-         "(disjoint blocks are proved; the explicit min-exchange lemma is not).",
+         "harness. C02_ancilla_bound / C02_sequence_bound (every ancilla label present is below the counter, syntactically, via "
+         "label provenance through the expression interpreter) and C02_later (a call's penalty does not read later ancillas) "
+         "give the independence needed to minimise the penalties of a sequence block by block; that exchange is C08_sequence.",
     technique="Coq proof (branch-by-branch evaluation identities + integer arithmetic lemmas) + model/implementation correspondence", ref="§5 C02"),
  "C06": dict(
     text="Coq theorem C06_logic: for each of the sixteen methods, every admissible arity, operands that are labels or nested "
@@ -132,9 +133,9 @@ CLAIMED = {
          "C03_sequence / C03_ancilla_blocks for sequences on one PCSO. Tied to /repo by exact comparison of terms, ancilla "
          "count, recorded constraints, warnings, variables after every call of random sequences + enumeration oracle on spins.",
     note="Trusted: Coq kernel + vm_compute; no axioms; hand-written model of _pcso.py on the C02/C04/C05 models; harness. "
-         "'num_ancillas covers every ancilla present' is proved semantically (the penalty is minimised by moving only the block "
-         "below the counter) and checked syntactically on the implementation by the oracle; float factors of the conversions are "
-         "exact on the dyadic coefficients generated.",
+         "'num_ancillas covers every ancilla present' is C03_ancilla_bound (syntactic: every '__aK' occurring has K below the "
+         "counter, through both conversions and the helper PCBO); float factors of the conversions are exact on the dyadic "
+         "coefficients generated.",
     technique="Coq proof (composition of the C02 and C04 theorems through the helper-PCBO route) + model/implementation correspondence", ref="§5 C03"),
  "C16": dict(
     text="Coq theorems C16_constraint / C16_logic / C16_spin: every constraint method (six comparison relations on PCBO and "
@@ -169,15 +170,16 @@ CLAIMED = {
          "(G >= 0; G = 0 reachable by moving only the constraint's own ancillas exactly when it holds; G >= 1 otherwise) and "
          "whose weights exceed the spread of f, every minimiser of f + sum lam_j G_j over all variables and ancillas is "
          "feasible, minimises f over the feasible assignments, and attains exactly that constrained optimum. "
-         "C08_one_constraint discharges every hypothesis for a PCBO holding an objective plus one comparison constraint "
+         "C08_sequence discharges every hypothesis for a PCBO holding an objective plus ANY NUMBER of comparison constraints "
          "(any relation / branch / log_trick / bounds) from the C02 theorem; C08_reduced continues through any degree "
          "reduction (C01_minimiser) and convert_solution. The brute-force half is C09's theorem. Tied to /repo by running the "
          "README workflow (objective + 1-2 comparison / logic constraints on PCBO and PCSO, solve_bruteforce, the four to_* "
          "forms solved exhaustively, convert_solution, remove_ancilla_from_solution) against the model and an enumeration oracle.",
-    note="Trusted: Coq kernel + vm_compute; no axioms; hand-written models; harness. For several constraints on one model the "
-         "hypothesis G_later of C08_abstract (a penalty does not read ancillas created by later constraints) is not yet "
-         "discharged for the model in Coq (the ancilla blocks are proved disjoint and consecutive in C02_sequence); the "
-         "multi-constraint workflows are covered by the correspondence run and the enumeration oracle.",
+    note="Trusted: Coq kernel + vm_compute; no axioms; hand-written models; harness. C08_sequence discharges every hypothesis of "
+         "the abstract theorem for any number of comparison constraints on a PCBO (independence from later ancillas comes from "
+         "C02_ancilla_bound). Not proved as one statement: sequences mixing logic constraints, the PCSO variant of the "
+         "sequence theorem, and the composition of C08_sequence with degree reduction for n > 1 (C08_reduced is stated for one "
+         "constraint; the argument is the same); those workflows are covered by the correspondence run and the oracle.",
     technique="Coq proof (exchange argument over penalties, composed with the C01 and C02 theorems) + model/implementation correspondence", ref="§5 C08"),
  "C11": dict(
     text="Coq theorems about the Gallina transcription of both C kernels and of the Python front end's packaging: "
